@@ -48,6 +48,7 @@ type Contract struct {
 	Abstract   bool // abstracted mode: unknown constructs havoc
 	NoOverflow bool // int mode: do not generate overflow obligations (listed as assumption)
 	NoPanicOff bool // do not generate safety obligations
+	NoPre      bool // callee preconditions are not obligations here; callee postconditions are assumed only under them
 	Unroll     map[int]int
 	Bounded    string
 	Opaque     map[string]bool // struct types treated as opaque
@@ -405,6 +406,8 @@ func ParseContractFile(path, pkg string) (*ContractFile, error) {
 				cur.NoOverflow = true
 			case "nosafety":
 				cur.NoPanicOff = true
+			case "nopre":
+				cur.NoPre = true
 			case "assert":
 				m := regexp.MustCompile(`^call=([^#\s]+)#(\d+)\s+(.*)$`).FindStringSubmatch(rest)
 				if m == nil {
